@@ -81,6 +81,9 @@ MUTANTS = [
      "            order = next(filter(lambda i: available[i] is True, range(len(available))))\n            orders[i] = order if i < 10 else 0\n\n        return self.__make_dot_bracket(regions, orders)"),
     ("m_c02_letters", "C02", C, '"".join(p) for p in zip(string.ascii_uppercase, string.ascii_lowercase)',
      '"".join(p) for p in zip(string.ascii_uppercase[1:], string.ascii_lowercase[1:])'),
+    ("m_c14_coarse_cache", "C14", A,
+     "    base_pairs, base_phosphate, base_ribose = find_pairs(tertiary_structure, model)\n    stackings = find_stackings(tertiary_structure, model)\n    return BaseInteractions(base_pairs, stackings, base_ribose, base_phosphate, [])",
+     "    key = (len(tertiary_structure.residues), model)\n    if key not in _INTERACTIONS_CACHE:\n        base_pairs, base_phosphate, base_ribose = find_pairs(tertiary_structure, model)\n        stackings = find_stackings(tertiary_structure, model)\n        _INTERACTIONS_CACHE[key] = BaseInteractions(base_pairs, stackings, base_ribose, base_phosphate, [])\n    return _INTERACTIONS_CACHE[key]\n\n\n_INTERACTIONS_CACHE = {}"),
     ("m_c14_listset", "C14", C,
      "        return sorted(solutions, key=lambda dot_bracket: dot_bracket.structure)", "        return list(solutions)"),
     ("m_c14_csvset", "C14", A,
